@@ -62,7 +62,11 @@ func genFault(g *Gen) {
 		f := newFaultGen(g)
 		l := f.l
 		bg := h%4 == 3
-		l.start(1 + g.Rng.Intn(2))
+		if bg {
+			l.start(2)
+		} else {
+			l.start(1 + g.Rng.Intn(2))
+		}
 		pSweep := 35 + g.Rng.Intn(40)
 		flush := func(p int) {
 			if !bg {
@@ -73,7 +77,7 @@ func genFault(g *Gen) {
 			// observations are `rec` ops; the sweeps carry the check (twin comparison)
 			r := f.g.Rng
 			f.rw.flush(func(op, body string) (string, string) {
-				if isObservation([]string{op}) {
+				if op == "recvtx" || isObservation([]string{op}) {
 					return "rec", "rec " + body
 				}
 				if (op == "addr" || op == "notify") && r.Intn(100) < p {
@@ -87,7 +91,7 @@ func genFault(g *Gen) {
 			if g.Rng.Intn(3) == 0 {
 				k = 3
 			}
-			f.rw.emit(fmt.Sprintf("sweep%d-%s", k, class), fmt.Sprintf("sweep %d 1 %s", k, body))
+			f.rw.emit("sweep-"+class, fmt.Sprintf("sweep %d 1 %s", k, body))
 			f.g.Stats["sweep-twin"]++
 		}
 		flush(pSweep)
@@ -158,6 +162,12 @@ func genFault(g *Gen) {
 		if bg && impState == 2 {
 			sweepBg("importstep", "importstep WI")
 			f.rw.emit("importstep", "importstep WI")
+		}
+		if bg && !removed && len(l.wallets) > 1 {
+			w := l.wallets[0]
+			sweepBg("remove", "remove "+w)
+			sweepBg("removerun", "removerun "+w)
+			l.wallets = l.wallets[1:]
 		}
 		if f.skip {
 			// the skipped notification was the last one: the node announces its tip again
